@@ -123,6 +123,14 @@ impl McGroupStatusAnsCreator {
     }
 
     pub fn push(&mut self, group_id: u8, mc_addr: McAddr) -> Result<&mut Self, Error> {
+        // AnsGroupMask has one bit per group (McGroupID 0..=3) and the buffer holds at most
+        // MAX_GROUPS items: anything else would spill into NbTotalGroups or past the buffer
+        if usize::from(group_id) >= MAX_GROUPS {
+            return Err(Error::InvalidIndex);
+        }
+        if self.items >= MAX_GROUPS {
+            return Err(Error::BufferTooShort);
+        }
         // update bitmask in status byte
         let bm = 1 << group_id;
         self.data[1] |= bm;
